@@ -170,4 +170,10 @@ def pipelineRounds (fdata : Bytes) : Nat :=
     | .error _ => parse
     | .ok frames => parse + (toScoreWork frames).lineHits
 
+/-- the channel count the (located) header declares: with the frame count this is the output size the input legitimately announces -/
+def declaredChannels (fdata : Bytes) : Nat :=
+  match locateData fdata with
+  | .error _ => 0
+  | .ok data => (vwscWork data).2.2
+
 end Drx.Score
